@@ -42,6 +42,10 @@ def gen_loop_program(rr):
         prog['outside'].append({'name': 'out%d' % i, 'target': rr.choice(targets), 'method': kind})
     nrel = rr.choice([0, 0, 1, 2, 3])
     prog['reloads'] = sorted(rr.sample(range(0, prog['k'] + 1), min(nrel, prog['k'] + 1)))
+    # the condition component may read the loop-carried binding too (next to its same-iteration input)
+    prog['stop_reads_binding'] = rr.random() < 0.3
+    if prog['nodeps'] and rr.random() < 0.4:
+        prog['free_name'] = rr.choice(['stop2', 'stop10', 'mid7'])
     return prog
 
 
@@ -66,8 +70,8 @@ def add_second_loop(rr, prog):
         second['import_stage'] = prog['import_stage'] + span_of(prog) + rr.choice([1, 1, 2])
     if not second['suffix'] and rr.random() < 0.4:
         # the same document imported twice
-        for key in ('template', 'method', 'repl', 'const_binding', 'nodeps', 'carried_from'):
-            second[key] = prog[key]
+        for key in ('template', 'method', 'repl', 'const_binding', 'nodeps', 'carried_from', 'stop_reads_binding', 'free_name'):
+            second[key] = prog.get(key)
         second['file'] = 'dowhile.yaml'
         targets = {'chain': ['work', 'stop'], 'mid': ['work', 'mid', 'stop'], 'replicated': ['agg', 'stop'],
                    'mid-offset': ['work', 'mid', 'stop']}[second['template']]
@@ -106,8 +110,11 @@ def body_components(prog):
     else:
         body = [('work', 0, work_refs, prog['repl'], False), ('agg', 0, [('work', False)], None, True),
                 ('stop', 0, [('agg', False)], None, False)]
+    if prog.get('stop_reads_binding'):
+        body = [(n, st, ([('val', True)] + refs) if n == 'stop' else refs, r, a) for (n, st, refs, r, a) in body]
     if prog['nodeps']:
-        body.append(('free', 0, [], None, False))
+        # a component without dependencies; its name may extend the condition component's name with digits
+        body.append((prog.get('free_name') or 'free', 0, [], None, False))
     sfx = prog.get('suffix') or ''
     if sfx:
         def ren(p, is_b):
@@ -301,7 +308,15 @@ def iteration_of(ref):
     return int(name.split('#', 1)[0]) if '#' in name else None
 
 
+ARGS = {}
+
+
+def nodes_with_hash(g):
+    return [n for n in g.nodes if '#' in n]
+
+
 def observe_loop(exp, prog):
+    ARGS.clear()
     """what the properties talk about, read off the live graph"""
     import experiment.model.frontends.flowir as F
     import experiment.model.graph as G
@@ -315,6 +330,17 @@ def observe_loop(exp, prog):
     state = {}
     for name in docs:
         state[name] = dict(docs[name].get('state') or {})
+    # what each loop instance is told on its command line vs what it is wired to
+    conc = wg.configuration.get_flowir_concrete(return_copy=False)
+    for n in nodes_with_hash(g):
+        st, name = n.split('.', 1)
+        try:
+            c = conc.get_component_configuration((int(st[5:]), name), raw=True)
+            toks = [t for t in str(c['command'].get('arguments', '')).split() if t.rsplit(':', 1)[-1] in
+                    ('ref', 'output', 'copy', 'link', 'loopref', 'loopoutput')]
+            ARGS[n] = (sorted(toks), sorted(c.get('references') or []))
+        except Exception as e:
+            ARGS[n] = ('ERR:%s' % type(e).__name__, None)
     resolved = {}
     for o in [o for lp in loops_of(prog) for o in lp['outside']]:
         node = 'stage%d.%s' % (o['stage'], o['name'])
@@ -391,6 +417,12 @@ def judge_loop(exp, prog, k, viol, where, cnt):
         got = {p for p in nodes[n]}
         if got != e_nodes[n]:
             V('wiring:predecessors-of-instance-differ', {'node': n, 'expected': sorted(e_nodes[n]), 'got': sorted(got)})
+            break
+    for n in sorted(e_looped):
+        a = ARGS.get(n)
+        if a is not None and a[1] is not None and a[0] != a[1]:
+            V('wiring:command-line-of-instance-names-other-inputs-than-its-references',
+              {'node': n, 'arguments': a[0], 'references': a[1]})
             break
     for ref, e in e_ph.items():
         p = ph.get(ref)
@@ -537,11 +569,25 @@ def run_loop_history(prog, root, viol, cnt, fixpoint_cycles=1):
     for pos in range(0, len(order) + 1):
         if pos in prog['reloads']:
             # crash + restart: only the directory survives
-            exp.validateExperiment(checkExecutables=True)  # same lifecycle state as the reloaded experiment
+            try:
+                exp.validateExperiment(checkExecutables=True)  # same lifecycle state as the reloaded experiment
+            except Exception as e:
+                viol.append({'property': 'C05', 'sig': 'instances:experiment-fails-its-own-validation-after-iterating',
+                             'detail': {'where': 'before reload at step %d' % pos, 'k': list(ks), 'error': repr(e)[:600]}})
+                steps.append('validate@%d failed' % pos)
+                return steps
             before = snapshot_experiment(exp)
             bb = conf_bytes(exp)
             del exp
-            exp = reload_instance(path)
+            try:
+                exp = reload_instance(path)
+            except Exception as e:
+                # only the directory survived the crash and it cannot be loaded any more
+                for prop, sig in (('C07', 'reload:instance-does-not-load'), ('C05', 'instances:stored-iterations-do-not-load')):
+                    viol.append({'property': prop, 'sig': sig,
+                                 'detail': {'where': 'reload at step %d' % pos, 'k': list(ks), 'error': repr(e)[:600]}})
+                steps.append('reload@%d failed' % pos)
+                return steps
             cnt['fault.crash_and_reload'] = cnt.get('fault.crash_and_reload', 0) + 1
             judge_reload(before, bb, exp, viol, 'reload at step %d' % pos, cnt)
             for c in range(fixpoint_cycles - 1):
